@@ -28,7 +28,7 @@ std::string hex(const std::string & s) {
 
 // ------------------------------------------------------------------ AST of a generated file
 struct Sel { bool all = false; size_t i = 0; };
-struct Val { std::string txt; double v; };
+struct Val { std::string txt; double v; std::string exact = ""; };   // exact: the rational the generator meant ("n/d"), when it knows it without parsing
 struct Stmt {
     char tbl = 'T';          // T, R, O
     Sel a, d1, d3;
@@ -50,7 +50,7 @@ struct File {
 // targeted mutation applied while rendering
 struct Mut { std::string cls = ""; long target = -1; int arg = 0; bool decoy = true; };
 
-Val mkVal(const std::string & t) { return Val{t, std::strtod(t.c_str(), nullptr)}; }
+Val mkVal(const std::string & t) { return Val{t, std::strtod(t.c_str(), nullptr), ""}; }
 
 // exact decimal text of k/16 in assorted spellings
 Val dyadic16(Rng & r, long k) {
@@ -65,7 +65,8 @@ Val dyadic16(Rng & r, long k) {
     if (style == 6) s += "e0";
     if (style == 7 && k >= 0 && r.coin(1, 3)) { std::snprintf(buf, sizeof buf, r.coin() ? "0x%lxp-4" : "0X%lX.0P-4", (unsigned long)k); s = buf; }  // hexadecimal float, exact
     if (s.empty() || s == "+" || s == "-") s = "0";
-    return mkVal(s);
+    Val out = mkVal(s); out.exact = std::to_string(k) + "/16";
+    return out;
 }
 
 std::vector<Val> dist(Rng & r, size_t n, bool ugly) {
@@ -96,8 +97,10 @@ std::vector<Val> anyrow(Rng & r, size_t n) {
 Val reward(Rng & r) {
     static const std::vector<const char*> ugly = {"-1.0", "5.2", "0.1", "-0.3", "1e1", "-2.5e0", "100", "-7", "3.75", "0", "-0.0", "12.125"};
     if (r.coin(1, 3)) return mkVal(r.pick(ugly));
-    char buf[32]; std::snprintf(buf, sizeof buf, "%.2f", (double)r.range(-40, 40) / 4.0);
-    return mkVal(buf);
+    long n4 = r.range(-40, 40);
+    char buf[32]; std::snprintf(buf, sizeof buf, "%.2f", (double)n4 / 4.0);
+    Val out = mkVal(buf); out.exact = std::to_string(n4) + "/4";
+    return out;
 }
 
 Sel selOf(Rng & r, size_t n, unsigned starNum = 1, unsigned starDen = 4) {
@@ -317,6 +320,11 @@ void emitStmts(Line & L, const File & f) {
         else if (s.form == 0) { L << selTok(s.d1) << "e" << selTok(s.d3) << s.v.v; }
         else { L << selTok(s.d1) << "r" << s.vs.size(); for (auto & v : s.vs) L << v.v; }
     }
+    // every value token with the rational the generator meant: checked EXACTLY (no rounding) against the model's reading of the literal
+    std::vector<const Val*> vals;
+    for (auto & s : f.stmts) { if (s.form == 0) vals.push_back(&s.v); for (auto & v : s.vs) vals.push_back(&v); for (auto & row : s.rows) for (auto & v : row) vals.push_back(&v); }
+    L << "vals" << vals.size();
+    for (auto v : vals) { L << hex(v->txt) << (v->exact.empty() ? std::string("-") : v->exact) << v->v; }
 }
 
 // ASan aborts on an allocation it cannot serve instead of letting `new` throw (a property of the sanitizer
